@@ -278,3 +278,85 @@ Theorem parse_render_week_forms_py_years : forall form y m d, 4 <= form <= 5 -> 
   py_parse_iso (render_date form y m d) = Ok (mkp 2 y m d 0 0 0 0 None).
 Proof. exact py_parse_iso_render_week_years. Qed.
 Print Assumptions parse_render_week_forms_py_years.
+
+(* ------------------------------------------------------------ every well-formed text of the forms of Model/IsoForms.v, both backends *)
+From PV Require Import Model.IsoForms Proofs.C07PyForms Proofs.C07RsForms.
+
+(* the generated ISO8601_DT cannot tell digits apart, nor 'T' from ' ', nor '.' from ',': for EVERY string the match and its spans are
+   those of its normal form *)
+Theorem iso_regex_blind_to_digits_and_separators : forall s,
+  re_match ISO_RE ISO_NGROUPS s = option_map (texts s) (re_match_sp ISO_RE ISO_NGROUPS (shape2 s)).
+Proof. exact iso_match_blind2. Qed.
+Print Assumptions iso_regex_blind_to_digits_and_separators.
+
+(* the spans of the 26 groups in closed form (a function of the lengths of the pieces), checked against the span matcher on all 720
+   shapes (9 date/time layouts x fraction absent or 1..9 digits x 8 offset layouts) by one kernel computation *)
+Theorem iso_regex_spans_closed_form : forall dv pre ext fr ov, In (dv, pre, ext) combos -> In fr fracs -> (ov < 8)%nat ->
+  re_match_sp ISO_RE ISO_NGROUPS (rep dv pre ext fr ov) =
+  Some (date_spans dv ++ time_spans (length (rep_date dv)) pre ext fr (length (rep_off ov))).
+Proof. exact In_combos_use. Qed.
+Print Assumptions iso_regex_spans_closed_form.
+
+(* (a)-(d) combined date and time, pure-Python backend: for every valid date in each of the six date forms (calendar, ordinal, week;
+   extended with HH:MM:SS, basic with HHMMSS), separator T or space, every time of day, fraction absent or ANY list of 1..9 digits after
+   '.' or ',' (microsecond = the first six digits right-padded with zeros), offset absent, Z, +-hh, +-hhmm or +-hh:mm (00:00..23:59):
+   parse (text value) = value.  Week forms: ISO year 1001..9998 (strptime's %Y in _get_iso_8601_week, week_py_spec). *)
+Theorem parse_forms_datetime_py : forall form sep y m d H M S f o,
+  0 <= form <= 5 -> sep = 84 \/ sep = 32 -> valid_date y m d = true -> valid_time H M S 0 = true ->
+  frac_ok f = true -> offs_ok o = true -> (4 <= form -> 1001 <= iso_year_of y m d <= 9998) ->
+  py_parse_iso (iso_datetime form sep y m d H M S f o) = Ok (mkp 1 y m d H M S (frac_value f) (offs_value o)).
+Proof. exact py_parse_iso_datetime. Qed.
+Print Assumptions parse_forms_datetime_py.
+
+(* the same for the compiled backend (week forms: any ISO year 1..9999 that four digits can write) *)
+Theorem parse_forms_datetime_rs : forall form sep y m d H M S f o,
+  0 <= form <= 5 -> sep = 84 \/ sep = 32 -> valid_date y m d = true -> valid_time H M S 0 = true ->
+  frac_ok f = true -> offs_ok o = true -> (4 <= form -> 1 <= iso_year_of y m d <= 9999) ->
+  rs_parse_iso (iso_datetime form sep y m d H M S f o) = Ok (mkp 1 y m d H M S (frac_value f) (offs_value o)).
+Proof. exact rs_parse_iso_datetime. Qed.
+Print Assumptions parse_forms_datetime_rs.
+
+Theorem rs_eq_py_on_forms_datetime : forall form sep y m d H M S f o,
+  0 <= form <= 5 -> sep = 84 \/ sep = 32 -> valid_date y m d = true -> valid_time H M S 0 = true ->
+  frac_ok f = true -> offs_ok o = true -> (4 <= form -> 1001 <= iso_year_of y m d <= 9998) ->
+  rs_parse_iso (iso_datetime form sep y m d H M S f o) = py_parse_iso (iso_datetime form sep y m d H M S f o).
+Proof. exact rs_eq_py_datetime. Qed.
+Print Assumptions rs_eq_py_on_forms_datetime.
+
+(* through pendulum.parse, either backend, any exact / now: the offset written in the text wins, otherwise the tz option (default UTC) *)
+Theorem parse_top_forms_datetime : forall rs exact tzopt now form sep y m d H M S f o,
+  0 <= form <= 5 -> sep = 84 \/ sep = 32 -> valid_date y m d = true -> valid_time H M S 0 = true ->
+  frac_ok f = true -> offs_ok o = true -> (4 <= form -> 1001 <= iso_year_of y m d <= 9998) ->
+  (forall t, tzopt = Some t -> -86400 < t < 86400) ->
+  parse_top rs exact tzopt now (iso_datetime form sep y m d H M S f o) =
+  Ok (mkp 1 y m d H M S (frac_value f)
+        (Some (match offs_value o with Some v => v | None => match tzopt with Some t => t | None => 0 end end))).
+Proof. exact parse_top_datetime. Qed.
+Print Assumptions parse_top_forms_datetime.
+
+(* (e) time only, pure-Python backend: THH:MM:SS, THHMMSS and bare HH:MM:SS, with fraction and offset as above
+   (bare HHMMSS is the listed finding py-hhmmss-leading-zero) *)
+Theorem parse_forms_time_py : forall pre ext H M S f o,
+  pre = true \/ ext = true -> valid_time H M S 0 = true -> frac_ok f = true -> offs_ok o = true ->
+  py_parse_iso (iso_time pre ext H M S f o) = Ok (mkp 3 0 0 0 H M S (frac_value f) (offs_value o)).
+Proof. exact py_parse_iso_time. Qed.
+Print Assumptions parse_forms_time_py.
+
+(* compiled backend: bare HH:MM:SS and THHMMSS (THH:MM:SS is the listed finding rs-T-extended-time-rejected, bare HHMMSS the listed
+   finding rs-bare-hhmmss-rejected) *)
+Theorem parse_forms_time_rs : forall pre ext H M S f o,
+  (pre = false /\ ext = true) \/ (pre = true /\ ext = false) -> valid_time H M S 0 = true -> frac_ok f = true -> offs_ok o = true ->
+  rs_parse_iso (iso_time pre ext H M S f o) = Ok (mkp 3 0 0 0 H M S (frac_value f) (offs_value o)).
+Proof. exact rs_parse_iso_time. Qed.
+Print Assumptions parse_forms_time_rs.
+
+Theorem rs_eq_py_on_forms_time : forall pre ext H M S f o,
+  (pre = false /\ ext = true) \/ (pre = true /\ ext = false) -> valid_time H M S 0 = true -> frac_ok f = true -> offs_ok o = true ->
+  rs_parse_iso (iso_time pre ext H M S f o) = py_parse_iso (iso_time pre ext H M S f o).
+Proof. exact rs_eq_py_time. Qed.
+Print Assumptions rs_eq_py_on_forms_time.
+
+(* the microseconds of a digit list are in range (so that the value above is a legal datetime) *)
+Theorem fraction_value_in_range : forall f, frac_ok f = true -> 0 <= frac_value f < 1000000.
+Proof. exact frac_value_range. Qed.
+Print Assumptions fraction_value_in_range.
